@@ -1,5 +1,5 @@
-use std::collections::HashMap;
 use std::collections::hash_map::Entry;
+use std::collections::{HashMap, HashSet};
 use std::fmt::Display;
 use std::pin::pin;
 
@@ -197,6 +197,16 @@ impl InMemoryStoreInner {
 
         // header range is already internally verified against itself in `P2p::get_unverified_header_ranges`
         self.verify_against_neighbours(prev_exists.then_some(head), next_exists.then_some(tail))?;
+
+        // Make sure that no header of the batch is already stored (or repeated in the batch)
+        // before touching the tables, so that a rejected batch leaves the store unchanged.
+        let mut batch_hashes = HashSet::with_capacity(headers.as_ref().len());
+        for header in headers.as_ref() {
+            let hash = header.hash();
+            if self.headers.contains_key(&hash) || !batch_hashes.insert(hash) {
+                return Err(StoreInsertionError::HashExists(hash).into());
+            }
+        }
 
         for header in headers.into_iter() {
             let hash = header.hash();
